@@ -186,7 +186,8 @@ func runC39(c *Ctx) {
 		var local types.Object
 		for _, fld := range fn.Decl.Type.Params.List {
 			for _, n := range fld.Names {
-				if n.Name == "local" {
+				// the local replica's value: the parameter of the ReplicatedData interface type
+				if nt := namedOf(info.TypeOf(fld.Type)); nt != nil && nt.Obj().Name() == "ReplicatedData" {
 					local = info.Defs[n]
 				}
 			}
